@@ -4,7 +4,7 @@ PROP = dict(
     module="FV.C16.Props",
     coq_targets=["theories/C16/Props.vo"],
     theorems=["overlay_total", "overlay_sound", "first_match_is_active", "preflight_keeps_substitutions",
-              "order_irrelevant_when_compatible", "overlay_applies_source_rules", "font_applies_source_rules",
+              "same_region_earlier_rule_wins", "order_irrelevant_when_compatible", "overlay_applies_source_rules", "font_applies_source_rules",
               "no_collision_without_full_range_conditions", "condition_set_box_is_conjunction",
               "touching_edges_refuted", "condset_collision_refuted", "later_rule_wins_refuted",
               "chained_rules_order_refuted"],
@@ -15,10 +15,10 @@ PROP = dict(
     rule="stage E (first): designspaces with <rules> (1-3 axes, 0..1024 or 0..1000 so that part of the edges fall "
          "between F2Dot14 grid points, default at the minimum, middle or maximum, 1-9 rules, 1-3 condition sets, "
          "open-ended / out-of-range / degenerate / inverted ranges, shared edge pools, repeated regions and "
-         "substitution maps, now and then a rule without condition set or a range written as two conditions on one axis) "
+         "substitution maps, now and then a rule without condition set or a range written as two conditions on one axis; a class in which 2-3 rules share one region - written identically, with the condition sets reordered, or with a redundant whole-axis condition - and replace one glyph differently, interleaved with other rules) "
          "compiled by fontc::generate_font, GSUB decoded with read-fonts; fixed designs for each situation of "
          "DESIGN.md 6.4; stage A: rule lists (1-12 rules, 1-3 axes, 1-3 boxes per rule; plus 63, 64 and 65-70 rules) "
-         "given to the real overlay_feature_variations. The property is evaluated on the implementation's output at "
+         "given to the real overlay_feature_variations (same classes, including the same-region class). The property is evaluated on the implementation's output at "
          "every combination of: axis ends, 0, every box edge (when it is a grid point), one grid step inside and "
          "outside every edge, and cell centres (sampled above 800/1500 locations per case). A case is non-trivial "
          "when at least two rules fire together somewhere; distinct = distinct rule list.",
